@@ -183,7 +183,7 @@ def main(ck):
         continue
       r = res['result']
       if r.get('discard'):
-        ck.discard('scene unstable with ample memory')
+        ck.discard('scene unstable with ample memory' if 'raised' in r['discard'] else 'scene too large for the sweep budget')
         continue
       need = r['need']
       if need is not None:
